@@ -65,7 +65,7 @@ class Boom(BaseException):
 
 
 def plan(tier, seed):
-    n = 40 if tier == "quick" else 900
+    n = 70 if tier == "quick" else 900
     cases = [{"kind": "seq", "k": k, "seed": seed} for k in range(n)]
     cases += [{"kind": "threads", "k": k, "seed": seed} for k in range(2 if tier == "quick" else 30)]
     cases += [{"kind": "asyncio", "k": k, "seed": seed} for k in range(2 if tier == "quick" else 30)]
